@@ -1798,14 +1798,15 @@ class Paths:
                 else:
                     default = s2
             for s2, a in cases:
-                self._walk(s2, cons + [(a, True)] + [(a2, False) for s3, a2 in cases if a2 != a], eff, onpath | {b}, env, 0, seq)
+                extra = [(a, True)] + [(a2, False) for s3, a2 in cases if a2 != a]
+                self._walk(s2, cons + extra, eff, onpath | {b}, env, 0, seq + [("cons",)] * len(extra))
             if default is not None:
-                self._walk(default, cons + [(a, False) for s2, a in cases], eff, onpath | {b}, env, 0, seq)
+                self._walk(default, cons + [(a, False) for s2, a in cases], eff, onpath | {b}, env, 0, seq + [("cons",)] * len(cases))
         elif len(ss) == 2 and blk.get("cond") is not None:
             c = self.fn.by_id(blk["cond"])
             f = self._curf(formula(lo, c), eff)
-            self._walk(ss[0], cons + [(f, True)], eff, onpath | {b}, env, 0, seq)
-            self._walk(ss[1], cons + [(f, False)], eff, onpath | {b}, env, 0, seq)
+            self._walk(ss[0], cons + [(f, True)], eff, onpath | {b}, env, 0, seq + [("cons",)])          # (one event per constraint: seq interleaves tests, effects, calls)
+            self._walk(ss[1], cons + [(f, False)], eff, onpath | {b}, env, 0, seq + [("cons",)])
         else:
             self.problems.append("unmodelled terminator %s" % blk.get("term"))
 
@@ -2340,6 +2341,48 @@ def rule_defect_update(ck, facts):
         ck.ob("E7.defect-history", key, not bad_hist and not bad_def,
               ("; ".join("%s (path to line %s)" % (b[1], b[0]) for b in (bad_hist + bad_def)[:3])) if (bad_hist or bad_def)
               else "_def_prev = _def_cur precedes the only write `_def_cur = %s` on each of the %d paths" % (newdef or "$" + fn.params[0]["n"], len(ps.paths)), fn.file, fn.line)
+        # --- skipping the norm computation (skip_defect_calc) is a matter of configuration only
+        if name == "_set_new_defect":
+            protocol = base_written_fields(facts) | {"_status"}
+            skip_paths = [p for p in ps.paths if not any(e[0] == "_def_cur=" for e in p["eff"])]
+            all_atoms = sorted(ps.atoms())
+            sbad, sinc = [], []
+            for p in skip_paths:
+                # the tests that decide the skip: those evaluated before the defect is analysed
+                ana = [ix for ix, ev in enumerate(p["seq"]) if ev[0] == "call" and ev[1] == "_analyse_defect"]
+                ncons = sum(1 for ev in p["seq"][:ana[0]] if ev[0] == "cons") if ana else len(p["cons"])
+                pcons = p["cons"][:ncons]
+                patoms = set()
+                for f, pol in pcons:
+                    f_atoms(f, patoms)
+                dyn = sorted(a for a in patoms if any(re.search(r"(?<![\w$])%s(?!\w)" % re.escape(x), a) for x in protocol))
+                if dyn:
+                    sbad.append("on the path to line %s the defect norm is not computed depending on %s, i.e. on the state of the running iteration: _analyse_defect then judges the defect of an earlier "
+                                "iteration in some iterations of a convergence-controlled run (e.g. the one whose number equals max_iter: 'max_iter' instead of 'success', stale get_def_final())" % (p["line"], ", ".join(dyn)))
+                    continue
+                need_true = ["le(_max_iter,_min_iter)", "le(_min_stag_iter,0)"]
+                if len(all_atoms) > 14:
+                    sinc.append("too many atoms (%d)" % len(all_atoms))
+                    continue
+                for bits in itertools.product((False, True), repeat=len(all_atoms)):
+                    env = dict(zip(all_atoms, bits))
+                    if not consistent(env) or not all(f_eval(f, env) == pol for f, pol in pcons):
+                        continue
+                    miss = [a for a in need_true if not env.get(a, False)]
+                    plots = [a for a in sorted(patoms) if a.startswith("_plot_iter(") and env[a]]
+                    if miss or plots:
+                        related = [a for a in patoms if a not in need_true and re.search(r"_min_iter|_max_iter|_min_stag_iter|_stag_rate", a)]
+                        msg = "the norm computation can be skipped (path to line %s, e.g. under {%s}) although %s: the skipped norm is only dispensable in a run with a fixed number of iterations (min_iter >= max_iter), without stagnation check and without iteration plot" % (
+                            p["line"], ", ".join("%s=%s" % (a, "T" if env[a] else "F") for a in sorted(patoms)),
+                            "; ".join(["%s does not hold" % a for a in miss] + ["%s holds" % a for a in plots]))
+                        (sinc if related else sbad).append(msg if not related else msg + " - but the path tests %s, which this rule does not relate to the requirement" % ", ".join(related))
+                        break
+            for m in sorted(set(sinc))[:2]:
+                ck.incomplete("E13.skip-defect-calc", "%s: %s" % (key, m))
+            if not sinc or sbad:
+                ck.ob("E13.skip-defect-calc", key, not sbad, "; ".join(sorted(set(sbad))[:2]) if sbad else
+                      ("%d of %d paths skip the norm computation, all of them only under skip_defect_calc with min_iter >= max_iter, no stagnation check, no iteration plot" % (len(skip_paths), len(ps.paths))
+                       if skip_paths else "the defect norm is computed on every path"), fn.file, fn.line)
         # the returned status is _analyse_defect(_num_iter, _def_cur, _def_prev, true), roles by callee parameter name;
         # decided per path on the spliced event sequence (so it survives helpers and shared tails)
         ana = base_functions(facts, "_analyse_defect")
@@ -5857,6 +5900,11 @@ RULES = [
     ("E2.rhs-const", 42,
      "the right-hand side parameter of apply/correct/_apply_intern and of the two abstract interfaces is `const VectorType&` and is never the operand "
      "of a const/reinterpret/reference cast — with that the C++ type system rejects every mutating use, so the rhs is never modified."),
+    ("E13.skip-defect-calc", 1,
+     "IterativeSolver::_set_new_defect may leave out the norm computation (skip_defect_calc): path enumeration (helpers followed); on every path that does not write _def_cur the branch "
+     "conditions mention configuration only - no field that the protocol writes while iterating (_num_iter, _def_*, _num_stag_iter) - and every consistent assignment of the atoms that takes "
+     "the path has min_iter >= max_iter (fixed number of iterations: no status depends on the defect), min_stag_iter <= 0 and no iteration plot. Broken => in some iterations of a "
+     "convergence-controlled run _analyse_defect judges the defect of an earlier iteration: a run converging exactly at max_iter returns 'max_iter', get_def_final() is stale."),
     ("E7.num-iter-once", 2,
      "_set_new_defect/_update_defect increment _num_iter exactly once on every path (path enumeration of the loop-free body). Broken => max_iter / "
      "min_iter limits are hit after half / never the configured number of iterations."),
